@@ -12,7 +12,8 @@
 //   on tables built by CreateCornerTableFromPositionAttribute / FromAllAttributes / MeshAttributeCornerTable::
 //   InitFromAttribute, with no corner order, the encoder's order, and random start lists;  (B) IN SITU: the maps and point
 //   sequences the real Edgebreaker encoder and decoder produced while coding the mesh (private members read out).
-// "!" lines: md_wf on the real maps, point multiplicities, encoder/decoder agreement under the corner correspondence.
+// "!" lines: md_wf on the real maps, point multiplicities, causality, the multi-parallelogram flag guard, encoder/decoder
+// agreement under the corner correspondence.
 #include "common.h"
 #include <algorithm>
 #include <array>
@@ -64,7 +65,7 @@ static void on_alarm(int) { if (g_out) { g_out->fail("HANG traversal did not fin
 
 static long g_cnt[40];
 enum { N_MESH, N_POS_DFS, N_POS_MPD, N_ATT, N_TAB, N_INSITU_ENC, N_INSITU_DEC, N_ORDER_NONE, N_ORDER_EB, N_ORDER_RND, N_FALSE, N_ERR,
-       N_DEG, N_ISO, N_SPLIT, N_SEAM_TABLES, N_NO_INTERIOR_SEAMS, N_SINGLE, N_ENTRIES, N_AGREE, N_MPD_INSITU, N_FIRSTFACE, N_PARA_OK, N_HOLES };
+       N_DEG, N_ISO, N_SPLIT, N_SEAM_TABLES, N_NO_INTERIOR_SEAMS, N_SINGLE, N_ENTRIES, N_AGREE, N_MPD_INSITU, N_FIRSTFACE, N_PARA_OK, N_HOLES, N_MPFLAGS };
 
 // ---------------------------------------------------------------- meshes (abstract vertex ids + seam groups per corner)
 typedef std::vector<std::array<int, 3>> Faces;
@@ -298,6 +299,32 @@ static void check_causal(Out &o, const CT *t, const Res &r, const std::vector<Co
   }
 }
 
+// PRED's premise mp_guard_ok on the real maps: the constrained multi-parallelogram encoder pushes, for entry d, one flag per available
+// parallelogram (walk of MeshPredictionSchemeConstrainedMultiParallelogramEncoder::ComputeCorrectionValues: SwingLeft from the entry's
+// corner until invalid or back, then SwingRight; at most 4) to context (count - 1); the decoder rejects a context with more than
+// num_corners flags.
+template <class CT>
+static void check_mp_guard(Out &o, const CT *t, const Res &r, const std::string &lhs) {
+  if (!r.ok) return;
+  long flags[4] = {0, 0, 0, 0};
+  for (long d = 1; d < r.n; d++) {
+    const CornerIndex start((uint32_t)r.d2c[d]); CornerIndex c = start; int np = 0; bool first_pass = true; long guard = 0;
+    while (c != kInvalidCornerIndex) {
+      if (++guard > 4 * (long)t->num_corners() + 8) { o.fail("MP_GUARD the walk around a vertex does not end :: " + lhs); return; }
+      const CornerIndex oc = t->Opposite(c);
+      if (oc != kInvalidCornerIndex) { bool ok = true;
+        for (CornerIndex x : {oc, t->Next(oc), t->Previous(oc)}) { uint32_t v = t->Vertex(x).value(); if (v == 0xFFFFFFFFu || r.v2d[v] >= d) ok = false; }
+        if (ok && ++np == 4) break; }
+      c = first_pass ? t->SwingLeft(c) : t->SwingRight(c);
+      if (c == start) break;
+      if (c == kInvalidCornerIndex && first_pass) { first_pass = false; c = t->SwingRight(start); }
+    }
+    if (np > 0) flags[np - 1] += np;
+  }
+  for (int k = 0; k < 4; k++) if (flags[k] > (long)t->num_corners()) { o.fail("MP_GUARD context " + S(k) + " would hold " + S(flags[k]) + " crease flags > num_corners :: " + lhs); return; }
+  g_cnt[N_MPFLAGS] += flags[0] + flags[1] + flags[2] + flags[3];
+}
+
 // ---------------------------------------------------------------- part A
 static std::vector<CornerIndex> random_order(Rng &r, int nf, const CornerTable *ct, bool avoid_deg) {
   std::vector<CornerIndex> o; int n = (int)r.below(nf + 3);
@@ -348,7 +375,7 @@ static void part_a(Out &o, Rng &r, const Mesh &mesh, const std::vector<CornerInd
       Res res = m ? run_templates<CornerTable, PMpd>(&mesh, ct.get(), init, &ord.second) : run_templates<CornerTable, PDfs>(&mesh, ct.get(), init, &ord.second);
       o.c(lhs, res_text(res)); g_cnt[m ? N_POS_MPD : N_POS_DFS]++; g_cnt[ord.first == "eb" ? N_ORDER_EB : N_ORDER_RND]++; g_cnt[N_ENTRIES] += res.n;
       check_maps(o, ct.get(), mesh, res, lhs, ord.first != "rnd");
-      check_causal(o, ct.get(), res, &ord.second, lhs);
+      check_causal(o, ct.get(), res, &ord.second, lhs); check_mp_guard(o, ct.get(), res, lhs);
     }
     // the decoder's way: no corner order.  With degenerate faces the model may predict an out-of-range access: forked.
     { long init = r.chance(50) ? -1 : ct->num_vertices();
@@ -359,7 +386,7 @@ static void part_a(Out &o, Rng &r, const Mesh &mesh, const std::vector<CornerInd
         o.c(lhs, t); if (t == "inv=1 err") g_cnt[N_ERR]++;
       } else {
         Res res = m ? run_templates<CornerTable, PMpd>(&mesh, ct.get(), init, nullptr) : run_templates<CornerTable, PDfs>(&mesh, ct.get(), init, nullptr);
-        o.c(lhs, res_text(res)); check_maps(o, ct.get(), mesh, res, lhs, true); check_causal(o, ct.get(), res, nullptr, lhs); g_cnt[N_ENTRIES] += res.n;
+        o.c(lhs, res_text(res)); check_maps(o, ct.get(), mesh, res, lhs, true); check_causal(o, ct.get(), res, nullptr, lhs); check_mp_guard(o, ct.get(), res, lhs); g_cnt[N_ENTRIES] += res.n;
       }
       g_cnt[m ? N_POS_MPD : N_POS_DFS]++; g_cnt[N_ORDER_NONE]++; }
   }
@@ -374,12 +401,12 @@ static void part_a(Out &o, Rng &r, const Mesh &mesh, const std::vector<CornerInd
       std::string lhs = att_lhs(flat, at, mesh, init < 0 ? "e" : "d" + S(init), order_text(&ord.second)); g_what = lhs;
       Res res = run_templates<MeshAttributeCornerTable, ADfs>(&mesh, &at, init, &ord.second);
       o.c(lhs, res_text(res)); g_cnt[N_ATT]++; g_cnt[N_ENTRIES] += res.n; g_cnt[N_FALSE] += !res.ok;
-      check_maps(o, &at, mesh, res, lhs, ord.first != "rnd"); check_causal(o, &at, res, &ord.second, lhs);
+      check_maps(o, &at, mesh, res, lhs, ord.first != "rnd"); check_causal(o, &at, res, &ord.second, lhs); check_mp_guard(o, &at, res, lhs);
     }
     { long init = std::max(at.num_vertices(), ct->num_vertices());       // no order: a degenerate face makes TraverseFromCorner return false
       std::string lhs = att_lhs(flat, at, mesh, "d" + S(init), "none"); g_what = lhs;
       if (has_deg) { std::string t = run_forked<MeshAttributeCornerTable, ADfs>(&mesh, &at, init, nullptr); o.c(lhs, t); g_cnt[N_FALSE] += t == "inv=1 false"; if (t == "inv=1 err") g_cnt[N_ERR]++; }
-      else { Res res = run_templates<MeshAttributeCornerTable, ADfs>(&mesh, &at, init, nullptr); o.c(lhs, res_text(res)); check_maps(o, &at, mesh, res, lhs, true); check_causal(o, &at, res, nullptr, lhs); }
+      else { Res res = run_templates<MeshAttributeCornerTable, ADfs>(&mesh, &at, init, nullptr); o.c(lhs, res_text(res)); check_maps(o, &at, mesh, res, lhs, true); check_causal(o, &at, res, nullptr, lhs); check_mp_guard(o, &at, res, lhs); }
       g_cnt[N_ATT]++; g_cnt[N_ORDER_NONE]++; }
   }
 }
@@ -426,8 +453,8 @@ static void part_b(Out &o, Rng &r, const MeshSpec &ms, const Mesh &mesh, std::ve
     std::string lhs = s.is_att ? att_lhs(flat, *s.at, mesh, "e", ord)
                                : std::string("pos ") + (s.method == MESH_TRAVERSAL_PREDICTION_DEGREE ? "mpd " : "dfs ") + join(flat) + " " + join(c2p) + " e " + ord;
     o.c(lhs, res_text(s.res)); g_cnt[N_INSITU_ENC]++; g_cnt[N_MPD_INSITU] += s.method == MESH_TRAVERSAL_PREDICTION_DEGREE; g_cnt[N_ENTRIES] += s.res.n;
-    if (s.is_att) { check_maps(o, s.at, mesh, s.res, lhs, true); check_causal(o, s.at, s.res, &ei->processed_connectivity_corners_, lhs); }
-    else { check_maps(o, s.ct, mesh, s.res, lhs, true); check_causal(o, s.ct, s.res, &ei->processed_connectivity_corners_, lhs); }
+    if (s.is_att) { check_maps(o, s.at, mesh, s.res, lhs, true); check_causal(o, s.at, s.res, &ei->processed_connectivity_corners_, lhs); check_mp_guard(o, s.at, s.res, lhs); }
+    else { check_maps(o, s.ct, mesh, s.res, lhs, true); check_causal(o, s.ct, s.res, &ei->processed_connectivity_corners_, lhs); check_mp_guard(o, s.ct, s.res, lhs); }
     esides.push_back(s);
   }
   // the real decoder on the stream
@@ -456,7 +483,7 @@ static void part_b(Out &o, Rng &r, const MeshSpec &ms, const Mesh &mesh, std::ve
     std::string lhs = std::string("tab ") + (es.method == MESH_TRAVERSAL_PREDICTION_DEGREE ? "mpd " : "dfs ") + join(x.c2v) + " " + join(x.opp) + " " + join(x.lmc) + " " + join(dc2p) +
                       " d" + S((long)ed->vertex_to_encoded_attribute_value_index_map.size()) + " none";
     o.c(lhs, res_text(dres)); g_cnt[N_INSITU_DEC]++; g_cnt[N_TAB]++;
-    if (at) { check_maps(o, at, outm, dres, lhs, true); check_causal(o, at, dres, nullptr, lhs); } else { check_maps(o, dct, outm, dres, lhs, true); check_causal(o, dct, dres, nullptr, lhs); }
+    if (at) { check_maps(o, at, outm, dres, lhs, true); check_causal(o, at, dres, nullptr, lhs); check_mp_guard(o, at, dres, lhs); } else { check_maps(o, dct, outm, dres, lhs, true); check_causal(o, dct, dres, nullptr, lhs); check_mp_guard(o, dct, dres, lhs); }
     // (d) agreement under the corner correspondence
     const Res &eres = es.res;
     if (dres.n != eres.n) { o.fail("AGREE num_values: encoder " + S(eres.n) + " decoder " + S(dres.n) + " (" + ms.name + ") :: " + lhs); continue; }
@@ -490,7 +517,7 @@ int main(int argc, char **argv) {
   Rng r((uint64_t)atoll(argv[2]));
   Out o(argv[3]); g_out = &o;
   signal(SIGALRM, on_alarm);
-  int nmesh = thorough ? 1500 : 260;
+  int nmesh = thorough ? 900 : 260;
   for (int i = 0; i < nmesh; i++) {
     MeshSpec ms = gen_mesh(r, i, thorough);
     std::unique_ptr<Mesh> mesh = build_mesh(ms);
@@ -506,6 +533,6 @@ int main(int argc, char **argv) {
          " order_none=" + S(g_cnt[N_ORDER_NONE]) + " order_eb=" + S(g_cnt[N_ORDER_EB]) + " order_other=" + S(g_cnt[N_ORDER_RND]) + " returned_false=" + S(g_cnt[N_FALSE]) + " crashed_as_predicted=" + S(g_cnt[N_ERR]) +
          " with_degenerate=" + S(g_cnt[N_DEG]) + " with_isolated=" + S(g_cnt[N_ISO]) + " with_split_vertices=" + S(g_cnt[N_SPLIT]) + " with_holes=" + S(g_cnt[N_HOLES]) + " seam_tables=" + S(g_cnt[N_SEAM_TABLES]) +
          " no_interior_seams=" + S(g_cnt[N_NO_INTERIOR_SEAMS]) + " single_connectivity=" + S(g_cnt[N_SINGLE]) + " entries=" + S(g_cnt[N_ENTRIES]) +
-         " entries_first_face=" + S(g_cnt[N_FIRSTFACE]) + " entries_parallelogram_available=" + S(g_cnt[N_PARA_OK]));
+         " entries_first_face=" + S(g_cnt[N_FIRSTFACE]) + " entries_parallelogram_available=" + S(g_cnt[N_PARA_OK]) + " mp_flags=" + S(g_cnt[N_MPFLAGS]));
   return 0;
 }
